@@ -6,7 +6,7 @@
     DecodeCostProofs.v; tie: Gen/BridgeSecs2.v + differential on mutated byte strings. *)
 From Coq Require Import ZArith Bool List Lia.
 From GoSecs Require Import Base.BytesBE Gen.Gen Gen.BridgeSecs2.
-From GoSecs Require Import Secs2.Item Secs2.Encode Secs2.Decode Secs2.Grammar Secs2.DecodeChk Secs2.DecodeCost.
+From GoSecs Require Import Secs2.Item Secs2.Encode Secs2.Decode Secs2.Grammar Secs2.DecodeChk Secs2.DecodeCost Secs2.Slab.
 From GoSecs Require Import Secs2.EncodeProofs Secs2.DecodeProofs Secs2.DecodeSound Secs2.DecodeRejects
   Secs2.DecodeChkProofs Secs2.DecodeCostProofs.
 Import ListNotations.
@@ -106,6 +106,21 @@ Proof. exact bridge_limits. Qed.
 Theorem C02_bridge_slab : Gen.secs2.slabChunkSizes = [1; 4; 16; 64; 128].
 Proof. exact bridge_slabChunkSizes. Qed.
 Print Assumptions C02_bridge_limits.
+
+(** The per-type item slabs: for any number of carved leaves the chunk schedule of the current
+    source is never indexed out of range, and structs allocated minus structs handed out stays
+    below its largest chunk (128): with 8 slabs of structs of at most 72 bytes that is the
+    constant [slab_tail] inside [decode_cost]. *)
+Theorem C02_slab_tail : forall m, exists t,
+  iter_next Gen.secs2.slabChunkSizes m slab0 = Some t /\ handed_out t = Z.of_nat m /\
+  allocated t - handed_out t <= max_chunk Gen.secs2.slabChunkSizes - (if (m =? 0)%nat then 0 else 1).
+Proof.
+  exact (slab_tail_bound Gen.secs2.slabChunkSizes (proj1 bridge_slab_schedule)
+           (proj1 (proj2 bridge_slab_schedule))).
+Qed.
+Theorem C02_bridge_slab_tail : 8 * max_chunk Gen.secs2.slabChunkSizes * 72 = slab_tail.
+Proof. exact (proj2 (proj2 bridge_slab_schedule)). Qed.
+Print Assumptions C02_slab_tail.
 
 (** Non-vacuity. *)
 Example C02_noncanonical_accepted :   (* U1[1]=5 with a 3-byte length field *)
